@@ -31,13 +31,14 @@ LEVEL_TEXT = (
     'used to address another subgraph\'s lists. The suite has a single '
     'two-signature fixture and no multi-subgraph transformation test. '
     'Equality with stand-alone quantization of each subgraph is not decided.'
+    ' Shared tables are append-only in every transformation; graph info, bookkeeping and rewrite are tabled on models with two or three differently laid out subgraphs.'
 )
 LEVEL_NOTE = (
     'Trusted: sa def-use engine; the convention that tensor ids / op ids are '
     'subgraph-relative while buffers, operator codes and tensor names are '
     'model-wide.'
 )
-TECHNIQUE = 'def-use origin / index-coherence rules over loops on ast (static)'
+TECHNIQUE = 'def-use origin / index-coherence rules over loops on ast + frame rule (shared tables append-only) + multi-subgraph tables and simulations (abstract interpretation) (static)'
 
 PERF = 'transformation_performer:TransformationPerformer'
 TIG = 'transformation_instruction_generator:TransformationInstructionsGenerator'
